@@ -10,3 +10,6 @@ import GoFlags.Props.C17
 #print axioms GoFlags.C17.only_hard_breaks_insert
 #print axioms GoFlags.C17.continuation_lines_get_prefix
 #print axioms GoFlags.C17.break_search_window
+#print axioms GoFlags.C17.wrapSegs_width
+#print axioms GoFlags.C17.wrapSegs_preserves
+#print axioms GoFlags.C17.wrapLine_pieces
